@@ -410,6 +410,10 @@ pub fn row_canon_unordered(r: &Row, outs: &[crate::qast::OutInfo]) -> String {
         for f in folds {
             let inner: Vec<&crate::qast::OutInfo> =
                 outs.iter().copied().filter(|o| o.fold_path.len() > depth && o.fold_path[depth] == f).collect();
+            // label a fold by the outputs it contains (vids change under harmless reorderings)
+            let mut label_names: Vec<&str> = inner.iter().map(|o| o.name.as_str()).collect();
+            label_names.sort();
+            let f = label_names.join(",");
             let lens: Vec<Option<usize>> = inner
                 .iter()
                 .map(|o| match vals.get(o.name.as_str()) {
@@ -422,7 +426,9 @@ pub fn row_canon_unordered(r: &Row, outs: &[crate::qast::OutInfo]) -> String {
                     .iter()
                     .map(|o| format!("{}={}", o.name, vals.get(o.name.as_str()).map(|v| v.canon()).unwrap_or_else(|| "<absent>".into())))
                     .collect();
-                parts.push(format!("fold{f}:{{{}}}", raw.join(";")));
+                let mut raw = raw;
+                raw.sort();
+                parts.push(format!("fold<{f}>:{{{}}}", raw.join(";")));
                 continue;
             }
             let n = lens.iter().flatten().copied().next().unwrap_or(0);
@@ -432,7 +438,7 @@ pub fn row_canon_unordered(r: &Row, outs: &[crate::qast::OutInfo]) -> String {
                     .iter()
                     .map(|o| format!("{}={}", o.name, vals.get(o.name.as_str()).map(|v| v.canon()).unwrap_or_else(|| "<absent>".into())))
                     .collect();
-                parts.push(format!("fold{f}:MISALIGNED{{{}}}", raw.join(";")));
+                parts.push(format!("fold<{f}>:MISALIGNED{{{}}}", raw.join(";")));
                 continue;
             }
             let mut elems: Vec<String> = vec![];
@@ -446,7 +452,7 @@ pub fn row_canon_unordered(r: &Row, outs: &[crate::qast::OutInfo]) -> String {
                 elems.push(level(&ev, &inner, depth + 1));
             }
             elems.sort();
-            parts.push(format!("fold{f}:[{}]", elems.join("|")));
+            parts.push(format!("fold<{f}>:[{}]", elems.join("|")));
         }
         parts.sort();
         parts.join(";")
